@@ -1,10 +1,13 @@
-(* JxXmlSound.v — every text the reference XML parser of JxXmlSpec accepts is an XML 1.0 text of the subset that
-   denotes the returned tree.  The texts are described generatively, production by production: how character data,
+(* JxXmlSound.v — the reference XML parser of JxXmlSpec accepts exactly the XML 1.0 texts of the subset, and returns
+   the tree the text denotes.  The texts are described generatively, production by production: how character data,
    attribute values, tags, CDATA sections, comments, processing instructions and the XML declaration are spelled, with
    every free choice the recommendation leaves (references or literal characters, either quote, white space inside
    tags, comments and processing instructions anywhere, empty-element tags).  The description mentions none of the
    parsing functions; it uses only the character classes, the table of references (decode_ref), Name (name_ok), the
-   checks on the declaration (decl_ok) and the merging of adjacent character data (merge_txt) of JxXmlSpec. *)
+   checks on the declaration (decl_ok) and the merging of adjacent character data (merge_txt) of JxXmlSpec.
+   Proved: whatever is accepted is such a text of the returned tree (xml_cps_sound); every such text is accepted with
+   that tree (xml_cps_complete); the trees are well-formed DOMs (xrenders_wf).  The last section lists the two places
+   where the subset is wider than the recommendation. *)
 From BS Require Import Base UtfSpec UtfModel JxJsonSpec JxJsonProofs JxXmlSpec JxXmlProofs.
 From Coq Require Import ZifyBool ZifyN ZifyNat.
 Local Open Scope N_scope.
@@ -13,10 +16,11 @@ Ltac Zify.zify_post_hook ::= Z.div_mod_to_equations.
 (* ================================================================== the texts of the subset (XML 1.0, 5th edition) *)
 
 (* Reference ::= EntityRef | CharRef  (productions 66-68): an ampersand, the name of a predefined entity or a number
-   sign and decimal digits or a number sign, x and hexadecimal digits, a semicolon.  decode_ref is the table 4.6 and
-   the value of a character reference, which must be a Char (WFC: Legal Character). *)
+   sign and decimal digits or a number sign, x and hexadecimal digits (none of which contains a semicolon), then a
+   semicolon.  decode_ref is the table of 4.6 and the value of a character reference, which must be a Char (WFC:
+   Legal Character). *)
 Inductive ref_spells : N -> list N -> Prop :=
-| rs_ref n c : decode_ref n = Some c -> ref_spells c (38 :: n ++ [59]).
+| rs_ref n c : ~ In 59 n -> decode_ref n = Some c -> ref_spells c (38 :: n ++ [59]).
 
 (* character data and references up to the next markup (productions 14, 43): a character of the value is written
    literally (any Char but less-than and ampersand; the literal text must not contain the CDATA-section-close
@@ -157,14 +161,15 @@ Qed.
 
 (* inside a reference the reader runs to the first semicolon *)
 Lemma lex_text_ref s : forall ra acc v r, lex_text (Some ra) acc s = Some (v, r) ->
-  exists m s' cp, s = m ++ 59 :: s' /\ decode_ref (rev ra ++ m) = Some cp /\ lex_text None (cp :: acc) s' = Some (v, r).
+  exists m s' cp, s = m ++ 59 :: s' /\ ~ In 59 m /\ decode_ref (rev ra ++ m) = Some cp /\
+                  lex_text None (cp :: acc) s' = Some (v, r).
 Proof.
   induction s as [|c s IH]; intros ra acc v r H; [discriminate|].
   cbn [lex_text] in H. destruct (c =? 59) eqn:E.
   - apply N.eqb_eq in E. subst c. destruct (decode_ref (rev ra)) as [cp|] eqn:D; [|discriminate].
-    exists [], s, cp. rewrite app_nil_r. split; [reflexivity|]. split; [exact D | exact H].
-  - destruct (IH _ _ _ _ H) as [m [s' [cp [E1 [E2 E3]]]]]. exists (c :: m), s', cp.
-    split; [rewrite E1; reflexivity|]. split; [|exact E3].
+    exists [], s, cp. rewrite app_nil_r. split; [reflexivity|]. split; [intros []|]. split; [exact D | exact H].
+  - destruct (IH _ _ _ _ H) as [m [s' [cp [E1 [E0 [E2 E3]]]]]]. exists (c :: m), s', cp.
+    split; [rewrite E1; reflexivity|]. split; [intros [Hc|Hc]; [lia | exact (E0 Hc)]|]. split; [|exact E3].
     cbn [rev] in E2. rewrite <- app_assoc in E2. exact E2.
 Qed.
 
@@ -182,14 +187,14 @@ Proof.
     { inversion H; subst. exists [], []. rewrite !app_nil_r.
       split; [reflexivity|]. split; [reflexivity|]. split; [constructor | cbn; lia]. }
     destruct (c =? 38) eqn:E38.
-    { apply N.eqb_eq in E38. subst c. apply lex_text_ref in H. destruct H as [m [s' [cp [E1 [E2 E3]]]]].
+    { apply N.eqb_eq in E38. subst c. apply lex_text_ref in H. destruct H as [m [s' [cp [E1 [E0 [E2 E3]]]]]].
       cbn [rev app] in E2.
       assert (Hl : (length s' <= n)%nat). { rewrite E1, app_length in Hn. cbn [length] in Hn. lia. }
       destruct (IH s' (cp :: acc) v r Hl E3) as [body [v' [B1 [B2 B3]]]].
       exists ((38 :: m ++ [59]) ++ body), (cp :: v'). split.
       - rewrite E1, B1. cbn [app]. rewrite <- !app_assoc. reflexivity.
       - split; [rewrite B2; cbn [rev]; rewrite <- app_assoc; reflexivity|].
-        split; [|exact (proj2 B3)]. apply cd_ref; [apply rs_ref; exact E2 | exact (proj1 B3)]. }
+        split; [|exact (proj2 B3)]. apply cd_ref; [apply rs_ref; [exact E0 | exact E2] | exact (proj1 B3)]. }
     destruct ((c =? 93) && starts [93; 62] s1) eqn:E93; [discriminate|].
     destruct (xml_char c) eqn:Ex; [|discriminate].
     destruct (IH s1 (c :: acc) v r ltac:(lia) H) as [body [v' [B1 [B2 [B3 B4]]]]].
@@ -204,14 +209,15 @@ Qed.
 (* ================================================================== attribute values: the reader is sound *)
 
 Lemma lex_attval_ref q s : forall ra acc v r, lex_attval q (Some ra) acc s = Some (v, r) ->
-  exists m s' cp, s = m ++ 59 :: s' /\ decode_ref (rev ra ++ m) = Some cp /\ lex_attval q None (cp :: acc) s' = Some (v, r).
+  exists m s' cp, s = m ++ 59 :: s' /\ ~ In 59 m /\ decode_ref (rev ra ++ m) = Some cp /\
+                  lex_attval q None (cp :: acc) s' = Some (v, r).
 Proof.
   induction s as [|c s IH]; intros ra acc v r H; [discriminate|].
   cbn [lex_attval] in H. destruct (c =? 59) eqn:E.
   - apply N.eqb_eq in E. subst c. destruct (decode_ref (rev ra)) as [cp|] eqn:D; [|discriminate].
-    exists [], s, cp. rewrite app_nil_r. split; [reflexivity|]. split; [exact D | exact H].
-  - destruct (IH _ _ _ _ H) as [m [s' [cp [E1 [E2 E3]]]]]. exists (c :: m), s', cp.
-    split; [rewrite E1; reflexivity|]. split; [|exact E3].
+    exists [], s, cp. rewrite app_nil_r. split; [reflexivity|]. split; [intros []|]. split; [exact D | exact H].
+  - destruct (IH _ _ _ _ H) as [m [s' [cp [E1 [E0 [E2 E3]]]]]]. exists (c :: m), s', cp.
+    split; [rewrite E1; reflexivity|]. split; [intros [Hc|Hc]; [lia | exact (E0 Hc)]|]. split; [|exact E3].
     cbn [rev] in E2. rewrite <- app_assoc in E2. exact E2.
 Qed.
 
@@ -226,14 +232,14 @@ Proof.
       split; [reflexivity|]. split; [reflexivity | constructor]. }
     destruct (c =? 60) eqn:E60; [discriminate|].
     destruct (c =? 38) eqn:E38.
-    { apply N.eqb_eq in E38. subst c. apply lex_attval_ref in H. destruct H as [m [s' [cp [E1 [E2 E3]]]]].
+    { apply N.eqb_eq in E38. subst c. apply lex_attval_ref in H. destruct H as [m [s' [cp [E1 [E0 [E2 E3]]]]]].
       cbn [rev app] in E2.
       assert (Hl : (length s' <= n)%nat). { rewrite E1, app_length in Hn. cbn [length] in Hn. lia. }
       destruct (IH s' (cp :: acc) v r Hl E3) as [body [v' [B1 [B2 B3]]]].
       exists ((38 :: m ++ [59]) ++ body), (cp :: v'). split.
       - rewrite E1, B1. cbn [app]. rewrite <- !app_assoc. reflexivity.
       - split; [rewrite B2; cbn [rev]; rewrite <- app_assoc; reflexivity|].
-        apply av_ref; [apply rs_ref; exact E2 | exact B3]. }
+        apply av_ref; [apply rs_ref; [exact E0 | exact E2] | exact B3]. }
     destruct (is_xws c) eqn:Ew.
     { destruct (IH s1 (32 :: acc) v r ltac:(lia) H) as [body [v' [B1 [B2 B3]]]].
       exists (c :: body), (32 :: v'). split; [rewrite B1; reflexivity|].
@@ -500,6 +506,636 @@ Proof.
   split; [rewrite Epre at 1; rewrite Et; reflexivity|]. repeat split; assumption.
 Qed.
 
+(* ================================================================== the converse: every text of the subset is accepted *)
+
+(* ------------------------------------------------------------------ character data *)
+
+Lemma lex_text_ref_complete n : forall ra acc s', ~ In 59 n ->
+  lex_text (Some ra) acc (n ++ 59 :: s') =
+  match decode_ref (rev ra ++ n) with Some cp => lex_text None (cp :: acc) s' | None => None end.
+Proof.
+  induction n as [|c n IH]; intros ra acc s' Hn.
+  - cbn [app lex_text]. rewrite N.eqb_refl, app_nil_r. reflexivity.
+  - assert (Ec : (c =? 59) = false). { apply N.eqb_neq. intros ->. apply Hn. left. reflexivity. }
+    cbn [app lex_text]. rewrite Ec, IH by (intros Hc; apply Hn; right; exact Hc).
+    cbn [rev]. rewrite <- app_assoc. reflexivity.
+Qed.
+
+Lemma starts_cdend body rest : starts [93; 62] body = false -> markup_or_end rest -> starts [93; 62] (body ++ rest) = false.
+Proof.
+  intros H Hr. unfold starts in *. destruct body as [|x [|y b]]; cbn [app strip_prefix] in *.
+  - destruct rest as [|c rest]; [reflexivity|]. cbn in Hr. subst c. reflexivity.
+  - destruct (93 =? x); [|reflexivity]. destruct rest as [|c rest]; [reflexivity|]. cbn in Hr. subst c. reflexivity.
+  - destruct (93 =? x); [|reflexivity]. destruct (62 =? y); [discriminate | reflexivity].
+Qed.
+
+Lemma lex_text_complete v body : chardata_spells v body -> forall acc rest, markup_or_end rest ->
+  lex_text None acc (body ++ rest) = Some (rev acc ++ v, rest).
+Proof.
+  induction 1 as [|c v body Hx H60 H38 H93 _ IH|c p v body Hp _ IH]; intros acc rest Hr.
+  - cbn [app]. rewrite app_nil_r. destruct rest as [|d rest]; [reflexivity|]. cbn in Hr. subst d. reflexivity.
+  - assert (R : rev acc ++ c :: v = rev (c :: acc) ++ v) by (cbn [rev]; rewrite <- app_assoc; reflexivity).
+    rewrite R, <- (IH (c :: acc) rest Hr). cbn [app lex_text].
+    assert (E60 : (c =? 60) = false) by lia. assert (E38 : (c =? 38) = false) by lia. rewrite E60, E38, Hx.
+    destruct (c =? 93) eqn:E93; [|reflexivity]. apply N.eqb_eq in E93.
+    rewrite (starts_cdend body rest (H93 E93) Hr). reflexivity.
+  - assert (R : rev acc ++ c :: v = rev (c :: acc) ++ v) by (cbn [rev]; rewrite <- app_assoc; reflexivity).
+    rewrite R, <- (IH (c :: acc) rest Hr). destruct Hp as [n c Hn Hd].
+    cbn [app]. rewrite <- !app_assoc. cbn [app lex_text]. change (38 =? 60) with false. change (38 =? 38) with true.
+    cbv iota. rewrite (lex_text_ref_complete n [] acc _ Hn). cbn [rev app]. rewrite Hd. reflexivity.
+Qed.
+
+(* ------------------------------------------------------------------ attribute values *)
+
+Lemma lex_attval_ref_complete q n : forall ra acc s', ~ In 59 n ->
+  lex_attval q (Some ra) acc (n ++ 59 :: s') =
+  match decode_ref (rev ra ++ n) with Some cp => lex_attval q None (cp :: acc) s' | None => None end.
+Proof.
+  induction n as [|c n IH]; intros ra acc s' Hn.
+  - cbn [app lex_attval]. rewrite N.eqb_refl, app_nil_r. reflexivity.
+  - assert (Ec : (c =? 59) = false). { apply N.eqb_neq. intros ->. apply Hn. left. reflexivity. }
+    cbn [app lex_attval]. rewrite Ec, IH by (intros Hc; apply Hn; right; exact Hc).
+    cbn [rev]. rewrite <- app_assoc. reflexivity.
+Qed.
+
+Lemma lex_attval_complete q v body : attval_spells q v body -> q = 34 \/ q = 39 -> forall acc rest,
+  lex_attval q None acc (body ++ q :: rest) = Some (rev acc ++ v, rest).
+Proof.
+  intros H Hq. induction H as [|c v body Hx Hcq H60 H38 Hw _ IH|c v body Hw Hcq _ IH|c p v body Hp _ IH]; intros acc rest.
+  - cbn [app lex_attval]. rewrite N.eqb_refl, app_nil_r. reflexivity.
+  - assert (R : rev acc ++ c :: v = rev (c :: acc) ++ v) by (cbn [rev]; rewrite <- app_assoc; reflexivity).
+    rewrite R, <- (IH (c :: acc) rest). cbn [app lex_attval].
+    assert (Eq : (c =? q) = false) by lia. assert (E60 : (c =? 60) = false) by lia. assert (E38 : (c =? 38) = false) by lia.
+    rewrite Eq, E60, E38, Hw, Hx. reflexivity.
+  - assert (R : rev acc ++ 32 :: v = rev (32 :: acc) ++ v) by (cbn [rev]; rewrite <- app_assoc; reflexivity).
+    rewrite R, <- (IH (32 :: acc) rest). cbn [app lex_attval].
+    assert (Eq : (c =? q) = false) by lia.
+    assert (E60 : (c =? 60) = false) by (unfold is_xws in Hw; lia).
+    assert (E38 : (c =? 38) = false) by (unfold is_xws in Hw; lia).
+    rewrite Eq, E60, E38, Hw. reflexivity.
+  - assert (R : rev acc ++ c :: v = rev (c :: acc) ++ v) by (cbn [rev]; rewrite <- app_assoc; reflexivity).
+    rewrite R, <- (IH (c :: acc) rest). destruct Hp as [n c Hn Hd].
+    cbn [app]. rewrite <- !app_assoc. cbn [app lex_attval].
+    assert (Eq : (38 =? q) = false) by lia. rewrite Eq. change (38 =? 60) with false. change (38 =? 38) with true.
+    cbv iota. rewrite (lex_attval_ref_complete q n [] acc _ Hn). cbn [rev app]. rewrite Hd. reflexivity.
+Qed.
+
+(* ------------------------------------------------------------------ delimited text *)
+
+Lemma starts_long p : forall u y, (length p <= length u)%nat -> starts p (u ++ y) = starts p u.
+Proof.
+  unfold starts. induction p as [|a p IH]; intros u y Hl; [reflexivity|].
+  destruct u as [|b u]; [cbn in Hl; lia|]. cbn [app strip_prefix]. destruct (a =? b); [|reflexivity].
+  apply IH. cbn in Hl. lia.
+Qed.
+
+Lemma scan_until_eq d s : scan_until d s =
+  match strip_prefix d s with
+  | Some r => Some ([], r)
+  | None => match s with
+            | c :: r => if xml_char c then match scan_until d r with Some (a, r') => Some (c :: a, r') | None => None end
+                        else None
+            | [] => None
+            end
+  end.
+Proof. destruct s; reflexivity. Qed.
+
+Lemma scan_until_complete d t : forall rest, forallb xml_char t = true -> free_of d t = true ->
+  scan_until d (t ++ d ++ rest) = Some (t, rest).
+Proof.
+  induction t as [|c t IH]; intros rest Hx Hf.
+  - rewrite scan_until_eq. cbn [app]. rewrite strip_prefix_app. reflexivity.
+  - cbn [forallb] in Hx. apply andb_true_iff in Hx. destruct Hx as [Hc Hx].
+    cbn [free_of] in Hf. apply andb_true_iff in Hf. destruct Hf as [Hs Hf]. apply negb_true_iff in Hs.
+    rewrite scan_until_eq.
+    assert (E : strip_prefix d ((c :: t) ++ d ++ rest) = None).
+    { pose proof (starts_long d (c :: t ++ d) rest) as L. rewrite Hs in L. unfold starts in L.
+      cbn [app] in L |- *. rewrite <- app_assoc in L.
+      destruct (strip_prefix d (c :: t ++ d ++ rest)); [|reflexivity].
+      assert (Hl : (length d <= length (c :: t ++ d))%nat) by (cbn [length]; rewrite app_length; lia).
+      specialize (L Hl). discriminate. }
+    rewrite E. cbn [app]. rewrite Hc, (IH rest Hx Hf). reflexivity.
+Qed.
+
+(* ------------------------------------------------------------------ attributes *)
+
+Lemma xws_not_name c : is_xws c = true -> name_char c = false.
+Proof.
+  intros H. destruct (name_char c) eqn:E; [|reflexivity]. apply name_char_ge in E. unfold is_xws in H. lia.
+Qed.
+
+Lemma ws_stop w c Z : ws_only w = true -> name_char c = false -> stopsp name_char (w ++ c :: Z).
+Proof.
+  intros Hw Hc. destruct w as [|x w]; [exact Hc|]. cbn in Hw. apply andb_true_iff in Hw.
+  cbn. apply xws_not_name. exact (proj1 Hw).
+Qed.
+
+Lemma skip_ws_app w c Z : ws_only w = true -> is_xws c = false -> skip_ws (w ++ c :: Z) = c :: Z.
+Proof. intros Hw Hc. unfold skip_ws. rewrite (span_app is_xws w (c :: Z) Hw Hc). reflexivity. Qed.
+
+Lemma keys_distinct_mid l n v a : keys_distinct (l ++ (n, v) :: a) = true -> has_key n l = false.
+Proof.
+  induction l as [|[k w] l IH]; intros H; [reflexivity|].
+  cbn [app keys_distinct] in H. apply andb_true_iff in H. destruct H as [H1 H2]. apply negb_true_iff in H1.
+  unfold has_key in H1. rewrite existsb_app in H1. apply orb_false_iff in H1. destruct H1 as [_ H1].
+  cbn [existsb fst] in H1. apply orb_false_iff in H1. destruct H1 as [H1 _].
+  unfold has_key. cbn [existsb fst]. rewrite (list_eqb_sym n k), H1. cbn [orb]. apply IH. exact H2.
+Qed.
+
+Lemma attrs_spell_len a ab : attrs_spell a ab -> (length a <= length ab)%nat.
+Proof.
+  induction 1 as [w _|n v a w1 w2 w3 q vb body Hne _ _ _ _ _ _ _ IH]; [cbn; lia|].
+  cbn [length]. repeat (rewrite app_length; cbn [length]). lia.
+Qed.
+
+(* an attribute list never begins with a name character *)
+Lemma attrs_spell_stop a ab c Z : attrs_spell a ab -> name_char c = false -> stopsp name_char (ab ++ c :: Z).
+Proof.
+  intros H Hc. destruct H as [w Hw|n v a w1 w2 w3 q vb body Hne Hw1 _ _ _ _ _ _].
+  - apply ws_stop; assumption.
+  - destruct w1 as [|x w1]; [congruence|]. cbn in Hw1. apply andb_true_iff in Hw1.
+    cbn. apply xws_not_name. exact (proj1 Hw1).
+Qed.
+
+Lemma end_text_head e r : exists c Z, end_text e ++ r = c :: Z /\ is_xws c = false /\ name_char c = false.
+Proof. destruct e; cbn [end_text app]; eexists; eexists; (split; [reflexivity | split; reflexivity]). Qed.
+
+Lemma lex_attrs_end f decl e w acc rest : ws_only w = true -> end_fits decl e ->
+  lex_attrs (S f) decl (w ++ end_text e ++ rest) acc = Some (rev acc, e, rest).
+Proof.
+  intros Hw Hf. cbn [lex_attrs].
+  destruct (end_text_head e rest) as [c [Z [Ec [Hc _]]]].
+  assert (Sp : span is_xws (w ++ end_text e ++ rest) = (w, end_text e ++ rest)).
+  { apply span_app; [exact Hw|]. rewrite Ec. exact Hc. }
+  rewrite Sp. destruct e; cbn in Hf; subst decl; reflexivity.
+Qed.
+
+Lemma lex_attrs_complete a ab : attrs_spell a ab -> forall f decl e acc rest,
+  end_fits decl e -> (length a < f)%nat -> keys_distinct (rev acc ++ a) = true ->
+  lex_attrs f decl (ab ++ end_text e ++ rest) acc = Some (rev acc ++ a, e, rest).
+Proof.
+  induction 1 as [w Hw|n v a w1 w2 w3 q vb body Hne Hw1 Hn Hw2 Hw3 Hq Hv _ IH]; intros f decl e acc rest Hf Hl Hd.
+  - destruct f as [|f]; [lia|]. rewrite app_nil_r. apply lex_attrs_end; assumption.
+  - destruct f as [|f]; [lia|]. cbn [length] in Hl.
+    destruct (name_ok_inv n Hn) as [c0 [n' [En [Hc0 Hn']]]]. pose proof (name_start_ge c0 Hc0) as Hge.
+    set (Z4 := body ++ end_text e ++ rest).
+    set (Z3 := vb ++ q :: Z4). set (Z2 := w3 ++ q :: Z3). set (Z1 := w2 ++ 61 :: Z2).
+    assert (Etxt : (w1 ++ n ++ w2 ++ [61] ++ w3 ++ [q] ++ vb ++ [q] ++ body) ++ end_text e ++ rest = w1 ++ n ++ Z1).
+    { unfold Z1, Z2, Z3, Z4. rewrite <- ?app_assoc. cbn [app]. rewrite <- ?app_assoc. cbn [app]. reflexivity. }
+    rewrite Etxt. cbn [lex_attrs].
+    assert (Sp : span is_xws (w1 ++ n ++ Z1) = (w1, n ++ Z1)).
+    { apply span_app; [exact Hw1|]. rewrite En. cbn. unfold is_xws. lia. }
+    rewrite Sp. rewrite En at 1. cbn [app].
+    assert (E62 : (c0 =? 62) = false) by lia. assert (E47 : (c0 =? 47) = false) by lia. assert (E63 : (c0 =? 63) = false) by lia.
+    rewrite E62, E47, E63, !andb_false_r.
+    destruct w1 as [|x w1]; [congruence|].
+    assert (N61 : name_char 61 = false) by reflexivity.
+    rewrite (lex_name_app n Z1 Hn (ws_stop w2 61 Z2 Hw2 N61)).
+    unfold Z1. rewrite (skip_ws_app w2 61 Z2 Hw2 eq_refl). change (61 =? 61) with true. cbv iota.
+    assert (Wq : is_xws q = false) by (unfold is_xws; lia).
+    unfold Z2. rewrite (skip_ws_app w3 q Z3 Hw3 Wq).
+    assert (Qq : ((q =? 34) || (q =? 39)) = true) by lia. rewrite Qq.
+    unfold Z3. rewrite (lex_attval_complete q v vb Hv Hq [] Z4). cbn [rev app].
+    assert (Hk : has_key n acc = false). { rewrite <- has_key_rev. exact (keys_distinct_mid _ _ _ _ Hd). }
+    rewrite Hk. unfold Z4.
+    rewrite (IH f decl e ((n, v) :: acc) rest Hf ltac:(lia)).
+    + cbn [rev]. rewrite <- app_assoc. reflexivity.
+    + cbn [rev]. rewrite <- app_assoc. exact Hd.
+Qed.
+
+(* ------------------------------------------------------------------ the lexer *)
+
+Lemma xlex_close_eq f r1 : xlex (S f) (60 :: 47 :: r1) =
+  match lex_name r1 with
+  | Some (n, r2) => match skip_ws r2 with
+                    | e :: r3 => if e =? 62 then xlcons (XClose n) (xlex f r3) else XLErr
+                    | [] => XLErr
+                    end
+  | None => XLErr
+  end.
+Proof. reflexivity. Qed.
+
+Lemma xlex_pi_eq f r1 : xlex (S f) (60 :: 63 :: r1) =
+  match lex_name r1 with
+  | Some (n, r2) =>
+    if is_xml_target n then XLErr
+    else match r2 with
+         | c2 :: _ => if is_xws c2 || starts [63; 62] r2
+                      then match scan_until [63; 62] r2 with Some (_, r3) => xlex f r3 | None => XLErr end
+                      else XLErr
+         | [] => XLErr
+         end
+  | None => XLErr
+  end.
+Proof. reflexivity. Qed.
+
+Lemma xlex_comment_eq f r2 : xlex (S f) ([60; 33; 45; 45] ++ r2) =
+  match scan_until [45; 45] r2 with
+  | Some (_, e :: r3) => if e =? 62 then xlex f r3 else XLErr
+  | _ => XLErr
+  end.
+Proof. reflexivity. Qed.
+
+Lemma xlex_cdata_eq f r2 : xlex (S f) ([60; 33; 91; 67; 68; 65; 84; 65; 91] ++ r2) =
+  match scan_until [93; 93; 62] r2 with
+  | Some ([], r3) => xlex f r3
+  | Some (t, r3) => xlcons (XTxt t) (xlex f r3)
+  | None => XLErr
+  end.
+Proof. reflexivity. Qed.
+
+Lemma xlex_tag_eq f c1 r1 : name_start c1 = true -> xlex (S f) (60 :: c1 :: r1) =
+  match lex_name (c1 :: r1) with
+  | Some (n, r2) =>
+    match lex_attrs f false r2 [] with
+    | Some (a, EndTag, r3) => xlcons (XOpen n a) (xlex f r3)
+    | Some (a, EndEmpty, r3) => xlcons (XEmpty n a) (xlex f r3)
+    | _ => XLErr
+    end
+  | None => XLErr
+  end.
+Proof.
+  intros H. apply name_start_ge in H. cbn [xlex]. change (60 =? 60) with true. cbv iota.
+  assert (E47 : (c1 =? 47) = false) by lia. assert (E63 : (c1 =? 63) = false) by lia.
+  assert (E33 : (c1 =? 33) = false) by lia. rewrite E47, E63, E33. reflexivity.
+Qed.
+
+Lemma xlex_text_eq f c r : (c =? 60) = false -> xlex (S f) (c :: r) =
+  match lex_text None [] (c :: r) with
+  | Some (t, r') => xlcons (XTxt t) (xlex f r')
+  | None => XLErr
+  end.
+Proof. intros H. cbn [xlex]. rewrite H. reflexivity. Qed.
+
+(* character data that spells something begins with a character other than less-than *)
+Lemma chardata_head v body : chardata_spells v body -> v <> [] -> exists c b, body = c :: b /\ (c =? 60) = false.
+Proof.
+  intros H Hv. destruct H as [|c v body _ H60 _ _ _|c p v body Hp _]; [congruence| |].
+  - exists c, body. split; [reflexivity | lia].
+  - destruct Hp as [n c _ _]. exists 38, ((n ++ [59]) ++ body). split; reflexivity.
+Qed.
+
+Lemma xws_char c : is_xws c = true -> xml_char c = true.
+Proof. unfold is_xws, xml_char. lia. Qed.
+
+Lemma xlex_complete s ts : xtext s ts -> forall fuel, (length s < fuel)%nat -> xlex fuel s = XLOk ts.
+Proof.
+  induction 1 as [ | n a ab s ts Hn Ha Hd _ IH | n a ab s ts Hn Ha Hd _ IH | n w s ts Hn Hw _ IH
+                  | v body s ts Hv Hne Hm _ IH | t s ts Hne Hx Hf _ IH | s ts _ IH | t s ts Hx Hf _ IH
+                  | n t s ts Hn Ht Hp _ IH ]; intros fuel Hl.
+  - destruct fuel; [lia | reflexivity].
+  - (* start tag *)
+    destruct fuel as [|f]; [lia|]. cbn [length] in Hl. rewrite !app_length in Hl. cbn [length] in Hl.
+    destruct (name_ok_inv n Hn) as [c0 [n' [En [Hc0 Hn']]]].
+    assert (Etxt : 60 :: n ++ ab ++ 62 :: s = 60 :: c0 :: n' ++ ab ++ 62 :: s) by (rewrite En; reflexivity).
+    rewrite Etxt, (xlex_tag_eq f c0 _ Hc0). change (c0 :: n' ++ ab ++ 62 :: s) with ((c0 :: n') ++ ab ++ 62 :: s).
+    rewrite <- En, (lex_name_app n _ Hn (attrs_spell_stop a ab 62 s Ha eq_refl)).
+    pose proof (attrs_spell_len a ab Ha) as La.
+    pose proof (lex_attrs_complete a ab Ha f false EndTag [] s eq_refl ltac:(lia) Hd) as LA.
+    cbn [end_text rev app] in LA. rewrite LA.
+    rewrite IH by lia. reflexivity.
+  - (* empty-element tag *)
+    destruct fuel as [|f]; [lia|]. cbn [length] in Hl. rewrite !app_length in Hl. cbn [length] in Hl.
+    destruct (name_ok_inv n Hn) as [c0 [n' [En [Hc0 Hn']]]].
+    assert (Etxt : 60 :: n ++ ab ++ 47 :: 62 :: s = 60 :: c0 :: n' ++ ab ++ 47 :: 62 :: s) by (rewrite En; reflexivity).
+    rewrite Etxt, (xlex_tag_eq f c0 _ Hc0).
+    change (c0 :: n' ++ ab ++ 47 :: 62 :: s) with ((c0 :: n') ++ ab ++ 47 :: 62 :: s).
+    rewrite <- En, (lex_name_app n _ Hn (attrs_spell_stop a ab 47 (62 :: s) Ha eq_refl)).
+    pose proof (attrs_spell_len a ab Ha) as La.
+    pose proof (lex_attrs_complete a ab Ha f false EndEmpty [] s eq_refl ltac:(lia) Hd) as LA.
+    cbn [end_text rev app] in LA. rewrite LA.
+    rewrite IH by lia. reflexivity.
+  - (* end tag *)
+    destruct fuel as [|f]; [lia|]. cbn [length] in Hl. rewrite !app_length in Hl. cbn [length] in Hl.
+    rewrite xlex_close_eq, (lex_name_app n _ Hn (ws_stop w 62 s Hw eq_refl)), (skip_ws_app w 62 s Hw eq_refl).
+    change (62 =? 62) with true. cbv iota. rewrite IH by lia. reflexivity.
+  - (* character data *)
+    destruct fuel as [|f]; [lia|]. rewrite app_length in Hl.
+    destruct (chardata_head v body Hv Hne) as [c [b [Eb Ec]]].
+    pose proof (lex_text_complete v body Hv [] s Hm) as L. cbn [rev app] in L.
+    rewrite Eb in *. cbn [app length] in *. rewrite (xlex_text_eq f c _ Ec), L, IH by lia. reflexivity.
+  - (* CDATA section *)
+    destruct fuel as [|f]; [lia|]. rewrite !app_length in Hl. cbn [length] in Hl.
+    rewrite xlex_cdata_eq, (scan_until_complete _ t s Hx Hf). destruct t as [|t0 t]; [congruence|].
+    rewrite IH by lia. reflexivity.
+  - destruct fuel as [|f]; [lia|]. rewrite app_length in Hl. cbn [length] in Hl.
+    change ([60; 33; 91; 67; 68; 65; 84; 65; 91; 93; 93; 62] ++ s)
+      with ([60; 33; 91; 67; 68; 65; 84; 65; 91] ++ [] ++ [93; 93; 62] ++ s).
+    rewrite xlex_cdata_eq, (scan_until_complete _ [] s eq_refl eq_refl). apply IH. lia.
+  - (* comment *)
+    destruct fuel as [|f]; [lia|]. rewrite !app_length in Hl. cbn [length] in Hl.
+    change (t ++ [45; 45; 62] ++ s) with (t ++ [45; 45] ++ 62 :: s).
+    rewrite xlex_comment_eq, (scan_until_complete _ t (62 :: s) Hx Hf). change (62 =? 62) with true. cbv iota.
+    apply IH. lia.
+  - (* processing instruction *)
+    destruct fuel as [|f]; [lia|]. cbn [length] in Hl. rewrite !app_length in Hl. cbn [length] in Hl.
+    rewrite xlex_pi_eq.
+    destruct Hp as [->|[w [t' [-> [Hw [Hx Hf]]]]]].
+    + cbn [app]. rewrite (lex_name_app n (63 :: 62 :: s) Hn eq_refl), Ht.
+      change (is_xws 63 || starts [63; 62] (63 :: 62 :: s)) with true. cbv iota.
+      change (63 :: 62 :: s) with ([] ++ [63; 62] ++ s).
+      rewrite (scan_until_complete _ [] s eq_refl eq_refl). apply IH. cbn [length] in Hl. lia.
+    + assert (Sw : stopsp name_char ((w :: t') ++ 63 :: 62 :: s)) by (cbn; apply xws_not_name; exact Hw).
+      rewrite (lex_name_app n _ Hn Sw), Ht. cbn [app]. rewrite Hw. cbn [orb].
+      change (w :: t' ++ 63 :: 62 :: s) with ((w :: t') ++ [63; 62] ++ s).
+      rewrite (scan_until_complete _ (w :: t') s).
+      * apply IH. cbn [length] in Hl. lia.
+      * cbn [forallb]. rewrite (xws_char w Hw), Hx. reflexivity.
+      * cbn [free_of]. rewrite Hf, andb_true_r. apply negb_true_iff. unfold starts. cbn [strip_prefix app].
+        assert (E : (63 =? w) = false) by (unfold is_xws in Hw; lia). rewrite E. reflexivity.
+Qed.
+
+(* ------------------------------------------------------------------ the tree builder *)
+
+Scheme xtoks_min := Minimality for xtoks Sort Prop
+  with xtoks_list_min := Minimality for xtoks_list Sort Prop.
+Combined Scheme xtoks_both from xtoks_min, xtoks_list_min.
+
+Definition xb_complete (x : xnode) (toks : list xtok) : Prop :=
+  is_text x = false -> forall rest, exists f0, forall f, (f0 <= f)%nat -> xbuild f (toks ++ rest) = BOk x rest.
+Definition xc_complete (ch : list xnode) (l : list xtok) : Prop :=
+  forall acc n rest, exists f0, forall f, (f0 <= f)%nat ->
+    xchildren f (l ++ XClose n :: rest) acc = COk (rev acc ++ ch) n rest.
+
+Lemma xbuild_complete : (forall x toks, xtoks x toks -> xb_complete x toks) /\
+                        (forall ch l, xtoks_list ch l -> xc_complete ch l).
+Proof.
+  apply xtoks_both.
+  - intros s H. discriminate.
+  - intros n a _ rest. exists 1%nat. intros [|f] Hf; [lia | reflexivity].
+  - intros n a ch l _ IH _ rest. destruct (IH [] n rest) as [f0 H0].
+    exists (S f0). intros [|f] Hf; [lia|].
+    cbn [app]. rewrite <- app_assoc. cbn [app xbuild]. rewrite H0 by lia. rewrite list_eqb_refl. reflexivity.
+  - intros acc n rest. exists 1%nat. intros [|f] Hf; [lia|]. cbn. rewrite app_nil_r. reflexivity.
+  - intros x ch t l Hx IHx _ IHl acc n rest. rewrite <- app_assoc.
+    destruct (IHl (x :: acc) n rest) as [f1 H1].
+    destruct x as [n' a' ch'|s].
+    + destruct (IHx eq_refl (l ++ XClose n :: rest)) as [f0 H0].
+      exists (S (Nat.max f0 f1)). intros [|f] Hf; [lia|].
+      assert (Hb : xbuild f (t ++ l ++ XClose n :: rest) = BOk (XElem n' a' ch') (l ++ XClose n :: rest)) by (apply H0; lia).
+      assert (Hc : xchildren f (l ++ XClose n :: rest) (XElem n' a' ch' :: acc) = COk (rev acc ++ XElem n' a' ch' :: ch) n rest).
+      { rewrite H1 by lia. cbn [rev]. rewrite <- app_assoc. reflexivity. }
+      inversion Hx; subst; cbn [app] in Hb |- *; cbn [xchildren]; rewrite Hb; exact Hc.
+    + exists (S f1). intros [|f] Hf; [lia|]. inversion Hx; subst.
+      cbn [app xchildren]. rewrite H1 by lia. cbn [rev]. rewrite <- app_assoc. reflexivity.
+Qed.
+
+Lemma xbuild_exact x toks post : xtoks x toks -> is_text x = false ->
+  xbuild (2 * length (toks ++ post) + 2) (toks ++ post) = BOk x post.
+Proof.
+  intros Hx Hel. destruct (proj1 xbuild_complete x toks Hx Hel post) as [f0 H0].
+  set (F := (2 * length (toks ++ post) + 2)%nat).
+  pose proof (xbuild_fuel_suffices (toks ++ post)) as Hn. fold F in Hn.
+  pose proof (proj1 (xbuild_mono F) (toks ++ post) _ (Nat.max f0 F) eq_refl Hn ltac:(lia)) as Hm.
+  rewrite <- Hm. apply H0. lia.
+Qed.
+
+(* ------------------------------------------------------------------ the declaration *)
+
+Lemma decl_ok_distinct a : decl_ok a = true -> keys_distinct a = true /\ a <> [].
+Proof.
+  intros H. split; [|destruct a; [discriminate | discriminate]].
+  destruct a as [|[k1 v1] r]; [discriminate|]. cbn [decl_ok] in H.
+  apply andb_true_iff in H. destruct H as [H H2]. apply andb_true_iff in H. destruct H as [H1 _].
+  apply list_eqb_eq in H1. subst k1.
+  destruct r as [|[k2 v2] [|[k3 v3] [|x r]]]; [reflexivity | | | discriminate].
+  - apply orb_true_iff in H2. destruct H2 as [H2|H2]; apply andb_true_iff in H2; destruct H2 as [H2 _];
+      apply list_eqb_eq in H2; subst k2; reflexivity.
+  - apply andb_true_iff in H2. destruct H2 as [H2 _]. apply andb_true_iff in H2. destruct H2 as [H2 H3].
+    apply andb_true_iff in H2. destruct H2 as [H2 _]. apply list_eqb_eq in H2, H3. subst k2 k3. reflexivity.
+Qed.
+
+Lemma split_decl_decl a ab body : attrs_spell a ab -> decl_ok a = true ->
+  split_decl (([60; 63; 120; 109; 108] ++ ab ++ [63; 62]) ++ body) = Some (Some a, body).
+Proof.
+  intros Ha Hok. destruct (decl_ok_distinct a Hok) as [Hd Hne].
+  unfold split_decl. rewrite <- app_assoc, strip_prefix_app, <- app_assoc.
+  pose proof (lex_attrs_complete a ab Ha (S (length (ab ++ [63; 62] ++ body))) true EndDecl [] body eq_refl) as L.
+  cbn [end_text rev app] in L.
+  assert (Hl : Nat.lt (length a) (S (length (ab ++ 63 :: 62 :: body)))).
+  { pose proof (attrs_spell_len a ab Ha). rewrite app_length. lia. }
+  specialize (L Hl Hd).
+  destruct Ha as [w _|n v a w1 w2 w3 q vb bd Hne1 Hw1 _ _ _ _ _ _]; [congruence|].
+  destruct w1 as [|x w1]; [congruence|]. cbn in Hw1. apply andb_true_iff in Hw1. destruct Hw1 as [Hx _].
+  cbn [app] in L |- *. rewrite Hx, L, Hok. reflexivity.
+Qed.
+
+(* a text of the subset does not begin like a declaration *)
+Lemma xtext_after_xml s ts r : xtext s ts -> strip_prefix [60; 63; 120; 109; 108] s = Some r ->
+  exists c r', r = c :: r' /\ is_xws c = false.
+Proof.
+  intros H Ep.
+  destruct H as [ | n a ab s ts Hn _ _ _ | n a ab s ts Hn _ _ _ | n w s ts _ _ _
+                 | v body s ts Hv Hne _ _ | t s ts _ _ _ _ | s ts _ | t s ts _ _ _
+                 | n t s ts Hn Ht Hp _ ].
+  - discriminate.
+  - exfalso. destruct (name_ok_inv n Hn) as [c0 [n' [-> [Hc0 _]]]]. apply name_start_ge in Hc0.
+    cbn [app strip_prefix] in Ep. change (60 =? 60) with true in Ep. cbv iota in Ep.
+    destruct (63 =? c0) eqn:E; [lia | discriminate].
+  - exfalso. destruct (name_ok_inv n Hn) as [c0 [n' [-> [Hc0 _]]]]. apply name_start_ge in Hc0.
+    cbn [app strip_prefix] in Ep. change (60 =? 60) with true in Ep. cbv iota in Ep.
+    destruct (63 =? c0) eqn:E; [lia | discriminate].
+  - discriminate.
+  - exfalso. destruct (chardata_head v body Hv Hne) as [c [b [-> Ec]]]. cbn [app strip_prefix] in Ep.
+    rewrite N.eqb_sym, Ec in Ep. discriminate.
+  - discriminate.
+  - discriminate.
+  - discriminate.
+  - cbn [strip_prefix] in Ep. change (60 =? 60) with true in Ep. change (63 =? 63) with true in Ep. cbv iota in Ep.
+    pose proof (name_ok_chars n Hn) as Hch.
+    (* what follows the target is a question mark or white space *)
+    assert (Hend : forall z Z' r0, strip_prefix (z :: Z') (t ++ 63 :: 62 :: s) = Some r0 -> z = 63 \/ is_xws z = true).
+    { intros z Z' r0 HZ. destruct Hp as [->|[w [t' [-> [Hw _]]]]]; cbn [app strip_prefix] in HZ.
+      - destruct (z =? 63) eqn:E; [left; lia | discriminate].
+      - destruct (z =? w) eqn:E; [|discriminate]. apply N.eqb_eq in E. subst z. right. exact Hw. }
+    destruct n as [|a [|b [|c [|d n4]]]]; cbn [app strip_prefix] in Ep.
+    + discriminate.
+    + exfalso. destruct (120 =? a); [|discriminate].
+      destruct (Hend 109 [108] r Ep) as [E|E]; discriminate.
+    + exfalso. destruct (120 =? a); [|discriminate]. destruct (109 =? b); [|discriminate].
+      destruct (Hend 108 [] r Ep) as [E|E]; discriminate.
+    + exfalso. destruct (120 =? a) eqn:Ea; [|discriminate]. destruct (109 =? b) eqn:Eb; [|discriminate].
+      destruct (108 =? c) eqn:Ec; [|discriminate].
+      apply N.eqb_eq in Ea, Eb, Ec. subst a b c. discriminate.
+    + destruct (120 =? a); [|discriminate]. destruct (109 =? b); [|discriminate]. destruct (108 =? c); [|discriminate].
+      inversion Ep; subst r. clear Ep. exists d, (n4 ++ t ++ 63 :: 62 :: s). split; [reflexivity|].
+      cbn [forallb] in Hch. apply andb_true_iff in Hch. destruct Hch as [_ Hch].
+      apply andb_true_iff in Hch. destruct Hch as [_ Hch]. apply andb_true_iff in Hch. destruct Hch as [_ Hch].
+      apply andb_true_iff in Hch. destruct Hch as [Hd _].
+      destruct (is_xws d) eqn:E; [|reflexivity]. apply xws_not_name in E. congruence.
+Qed.
+
+Lemma xtext_no_decl s ts : xtext s ts -> split_decl s = Some (None, s).
+Proof.
+  intros H. unfold split_decl.
+  destruct (strip_prefix [60; 63; 120; 109; 108] s) as [r|] eqn:Ep; [|reflexivity].
+  destruct (xtext_after_xml s ts r H Ep) as [c [r' [-> Hc]]]. rewrite Hc. reflexivity.
+Qed.
+
+(* ------------------------------------------------------------------ accepted texts = texts of the subset *)
+
+(* Every text of the subset is accepted, with the tree it denotes as the result. *)
+Theorem xml_cps_complete : forall s0 x, xrenders (norm_eol s0) x -> xml_parse_cps s0 = XOk x.
+Proof.
+  intros s0 x [decl [body [ts [pre [toks [post [Es [Hdecl [Ht [Em [Hpre [Hpost [Hx Hel]]]]]]]]]]]]].
+  unfold xml_parse_cps. cbv zeta. rewrite Es.
+  assert (Sd : exists d, split_decl (decl ++ body) = Some (d, body)).
+  { destruct Hdecl as [->|Hd].
+    - exists None. cbn [app]. apply (xtext_no_decl _ _ Ht).
+    - destruct Hd as [a ab Ha Hok]. exists (Some a). apply split_decl_decl; assumption. }
+  destruct Sd as [d Sd]. rewrite Sd.
+  rewrite (xlex_complete body ts Ht (S (length body)) (Nat.lt_succ_diag_r _)), Em.
+  assert (Ed : drop_ws_txt (pre ++ toks ++ post) = toks ++ post).
+  { destruct Hpre as [->|[w [-> Hw]]].
+    - cbn [app]. destruct Hx; [discriminate Hel | reflexivity | reflexivity].
+    - cbn [app drop_ws_txt]. rewrite Hw. reflexivity. }
+  rewrite Ed, (xbuild_exact x toks post Hx Hel).
+  destruct Hpost as [->|[w [-> Hw]]]; cbn [drop_ws_txt]; [reflexivity | rewrite Hw; reflexivity].
+Qed.
+
+Theorem xml_cps_exact : forall s0 x, xml_parse_cps s0 = XOk x <-> xrenders (norm_eol s0) x.
+Proof. intros s0 x. split; [apply xml_cps_sound | apply xml_cps_complete]. Qed.
+
+(* bytes: the accepted byte strings are the strict UTF-8 encodings of the texts of the subset *)
+Theorem xml_parse_exact : forall bytes x,
+  xml_parse bytes = XOk x <-> exists cps, utf8_decode bytes = Some (Some cps) /\ xrenders (norm_eol cps) x.
+Proof.
+  intros bytes x. unfold xml_parse. split.
+  - destruct (utf8_decode bytes) as [[cps|]|]; try discriminate. intros H. exists cps.
+    split; [reflexivity | apply xml_cps_sound; exact H].
+  - intros [cps [-> H]]. apply xml_cps_complete. exact H.
+Qed.
+
+(* ================================================================== the trees of accepted texts are well-formed DOMs *)
+
+Lemma decode_ref_char n c : decode_ref n = Some c -> xml_char c = true.
+Proof.
+  unfold decode_ref.
+  destruct (list_eqb n [97; 109; 112]). { intros H. inversion H. reflexivity. }
+  destruct (list_eqb n [108; 116]). { intros H. inversion H. reflexivity. }
+  destruct (list_eqb n [103; 116]). { intros H. inversion H. reflexivity. }
+  destruct (list_eqb n [113; 117; 111; 116]). { intros H. inversion H. reflexivity. }
+  destruct (list_eqb n [97; 112; 111; 115]). { intros H. inversion H. reflexivity. }
+  intros H.
+  repeat match type of H with
+         | match ?x with _ => _ end = Some _ => destruct x eqn:?; try discriminate H
+         end.
+  all: inversion H; subst; assumption.
+Qed.
+
+Lemma ref_spells_char c p : ref_spells c p -> xml_char c = true.
+Proof. destruct 1 as [n c _ H]. exact (decode_ref_char n c H). Qed.
+
+Lemma chardata_char v body : chardata_spells v body -> forallb xml_char v = true.
+Proof.
+  induction 1 as [|c v body Hx _ _ _ _ IH|c p v body Hp _ IH]; [reflexivity| |]; cbn [forallb].
+  - rewrite Hx, IH. reflexivity.
+  - rewrite (ref_spells_char c p Hp), IH. reflexivity.
+Qed.
+
+Lemma attval_char q v body : attval_spells q v body -> forallb xml_char v = true.
+Proof.
+  induction 1 as [|c v body Hx _ _ _ _ _ IH|c v body _ _ _ IH|c p v body Hp _ IH]; [reflexivity| | |]; cbn [forallb].
+  - rewrite Hx, IH. reflexivity.
+  - rewrite IH. reflexivity.
+  - rewrite (ref_spells_char c p Hp), IH. reflexivity.
+Qed.
+
+Lemma attrs_spell_ok a ab : attrs_spell a ab ->
+  forallb (fun kv => name_ok (fst kv) && forallb xml_char (snd kv)) a = true.
+Proof.
+  induction 1 as [w _|n v a w1 w2 w3 q vb body _ _ Hn _ _ _ Hv _ IH]; [reflexivity|].
+  cbn [forallb fst snd]. rewrite Hn, (attval_char q v vb Hv), IH. reflexivity.
+Qed.
+
+Definition tok_wfb (t : xtok) : bool :=
+  match t with
+  | XOpen n a | XEmpty n a => name_ok n && attrs_ok a
+  | XClose n => name_ok n
+  | XTxt s => negb (match s with [] => true | _ => false end) && forallb xml_char s
+  end.
+
+Lemma xtext_ok s ts : xtext s ts -> forallb tok_wfb ts = true.
+Proof.
+  induction 1 as [ | n a ab s ts Hn Ha Hd _ IH | n a ab s ts Hn Ha Hd _ IH | n w s ts Hn Hw _ IH
+                  | v body s ts Hv Hne Hm _ IH | t s ts Hne Hx Hf _ IH | s ts _ IH | t s ts Hx Hf _ IH
+                  | n t s ts Hn Ht Hp _ IH ]; try assumption; try reflexivity; cbn [forallb tok_wfb].
+  - unfold attrs_ok. rewrite Hn, (attrs_spell_ok a ab Ha), Hd, IH. reflexivity.
+  - unfold attrs_ok. rewrite Hn, (attrs_spell_ok a ab Ha), Hd, IH. reflexivity.
+  - rewrite Hn, IH. reflexivity.
+  - rewrite (chardata_char v body Hv), IH. destruct v; [congruence | reflexivity].
+  - rewrite Hx, IH. destruct t; [congruence | reflexivity].
+Qed.
+
+Lemma merge_ok ts : forallb tok_wfb ts = true -> forallb tok_wfb (merge_txt ts) = true.
+Proof.
+  induction ts as [|t ts IH]; intros H; [reflexivity|].
+  cbn [forallb] in H. apply andb_true_iff in H. destruct H as [Ht H]. specialize (IH H).
+  destruct t as [n a|n a|n|s]; cbn [merge_txt]; try (cbn [forallb]; rewrite Ht, IH; reflexivity).
+  destruct (merge_txt ts) as [|t2 r'].
+  - cbn [forallb]. rewrite Ht. reflexivity.
+  - destruct t2 as [n a|n a|n|b]; try (cbn [forallb] in IH |- *; rewrite Ht, IH; reflexivity).
+    cbn [forallb tok_wfb] in *. apply andb_true_iff in IH. destruct IH as [Hb IH].
+    apply andb_true_iff in Ht. destruct Ht as [Hs1 Hs2]. apply andb_true_iff in Hb. destruct Hb as [_ Hb2].
+    rewrite IH, forallb_app', Hs2, Hb2. destruct s; [discriminate | reflexivity].
+Qed.
+
+Lemma merge_no_adj ts : no_adj_txt (merge_txt ts) = true.
+Proof.
+  induction ts as [|t ts IH]; [reflexivity|].
+  destruct t as [n a|n a|n|s]; cbn [merge_txt]; try (cbn [no_adj_txt is_txt andb negb]; exact IH).
+  destruct (merge_txt ts) as [|t2 r']; [reflexivity|].
+  destruct t2 as [n a|n a|n|b]; try (cbn [no_adj_txt first_txt is_txt andb negb] in IH |- *; exact IH).
+Qed.
+
+Lemma no_adj_app a b : no_adj_txt (a ++ b) = true -> no_adj_txt a = true /\ no_adj_txt b = true.
+Proof.
+  induction a as [|t a IH]; intros H; [split; [reflexivity | exact H]|].
+  cbn [app no_adj_txt] in H |- *. apply andb_true_iff in H. destruct H as [H1 H2].
+  destruct (IH H2) as [Ia Ib]. split; [|exact Ib]. rewrite Ia, andb_true_r.
+  destruct a as [|t2 a]; [cbn [first_txt]; rewrite andb_false_r; reflexivity | exact H1].
+Qed.
+
+Lemma xtoks_wf :
+  (forall x toks, xtoks x toks -> forallb tok_wfb toks = true -> no_adj_txt toks = true -> xwfb x = true) /\
+  (forall ch l, xtoks_list ch l -> forallb tok_wfb l = true -> no_adj_txt l = true ->
+     forallb xwfb ch = true /\ no_adj_text ch = true).
+Proof.
+  apply xtoks_both.
+  - intros s H _. cbn [forallb tok_wfb] in H. rewrite andb_true_r in H. exact H.
+  - intros n a H _. cbn [forallb tok_wfb] in H. rewrite andb_true_r in H. cbn [xwfb forallb no_adj_text].
+    rewrite H. reflexivity.
+  - intros n a ch l _ IH H Hadj. cbn [forallb tok_wfb] in H. apply andb_true_iff in H. destruct H as [H1 H2].
+    rewrite forallb_app' in H2. apply andb_true_iff in H2. destruct H2 as [H2 _].
+    cbn [no_adj_txt is_txt andb negb] in Hadj. destruct (no_adj_app _ _ Hadj) as [Hadj' _].
+    destruct (IH H2 Hadj') as [I1 I2]. cbn [xwfb]. rewrite H1, I1, I2. reflexivity.
+  - intros _ _. split; reflexivity.
+  - intros x ch t l Hx IHx Hl IHl H Hadj. rewrite forallb_app' in H. apply andb_true_iff in H. destruct H as [H1 H2].
+    destruct (no_adj_app _ _ Hadj) as [A1 A2]. destruct (IHl H2 A2) as [I1 I2].
+    split; [cbn [forallb]; rewrite (IHx H1 A1), I1; reflexivity|].
+    destruct ch as [|y ch']; [reflexivity|].
+    change (no_adj_text (x :: y :: ch')) with (negb (is_text x && is_text y) && no_adj_text (y :: ch')).
+    rewrite I2, andb_true_r. apply negb_true_iff.
+    destruct x as [n a c|s]; [reflexivity|]. destruct y as [n a c|s']; [reflexivity|]. exfalso.
+    inversion Hx; subst. inversion Hl; subst.
+    match goal with Hy : xtoks (XText s') _ |- _ => inversion Hy; subst end.
+    cbn in Hadj. discriminate.
+Qed.
+
+Theorem xrenders_wf s x : xrenders s x -> xwf x.
+Proof.
+  intros [decl [body [ts [pre [toks [post [_ [_ [Ht [Em [_ [_ [Hx Hel]]]]]]]]]]]]]. split; [|exact Hel].
+  pose proof (merge_ok ts (xtext_ok body ts Ht)) as Hok. pose proof (merge_no_adj ts) as Hadj.
+  rewrite Em in Hok, Hadj. rewrite !forallb_app' in Hok.
+  apply andb_true_iff in Hok. destruct Hok as [_ Hok]. apply andb_true_iff in Hok. destruct Hok as [Hok _].
+  destruct (no_adj_app _ _ Hadj) as [_ Hadj']. destruct (no_adj_app _ _ Hadj') as [Hadj'' _].
+  exact (proj1 xtoks_wf x toks Hx Hok Hadj'').
+Qed.
+
+(* whatever the reference parser returns can be printed and is read back from the print *)
+Corollary xml_cps_reprint s0 x : xml_parse_cps s0 = XOk x -> xml_parse_cps (xml_print_cps x) = XOk x.
+Proof. intros H. apply xml_cps_parse_print. exact (xrenders_wf _ _ (xml_cps_sound _ _ H)). Qed.
+
 (* ================================================================== the free choices, by example *)
 
 (* a declaration with an encoding, CR LF line ends, a comment, a processing instruction, an attribute in single
@@ -517,5 +1153,87 @@ Example xrenders_example :
     (XElem [97] [([107], [118; 32; 49]); ([106], [65; 66])] [XElem [98] [] []; XText [120; 60; 60; 121; 62]]).
 Proof. apply xml_cps_sound. vm_compute. reflexivity. Qed.
 
-Print Assumptions xml_cps_sound.
-Print Assumptions xrenders_example.
+(* ================================================================== what free_of says, delimiter by delimiter *)
+
+(* the text of a comment, as production 15 has it: ((Char - '-') | ('-' (Char - '-')))* *)
+Inductive comment_text : list N -> Prop :=
+| ct_nil : comment_text []
+| ct_char c t : c <> 45 -> comment_text t -> comment_text (c :: t)
+| ct_hyphen c t : c <> 45 -> comment_text t -> comment_text (45 :: c :: t).
+
+Lemma comment_text_free t : comment_text t -> free_of [45; 45] t = true.
+Proof.
+  induction 1 as [|c t Hc _ IH|c t Hc _ IH]; [reflexivity| |].
+  - cbn [free_of]. rewrite IH, andb_true_r. unfold starts. cbn [strip_prefix].
+    assert (E : (45 =? c) = false) by lia. rewrite E. reflexivity.
+  - cbn [free_of]. rewrite IH, andb_true_r. unfold starts. cbn [strip_prefix app].
+    assert (E : (45 =? c) = false) by lia. rewrite E. change (45 =? 45) with true. reflexivity.
+Qed.
+
+Lemma free_comment_text n : forall t, (length t <= n)%nat -> free_of [45; 45] t = true -> comment_text t.
+Proof.
+  induction n as [|n IH]; intros t Hl H.
+  - destruct t; [constructor | cbn in Hl; lia].
+  - destruct t as [|c t]; [constructor|]. cbn [length] in Hl.
+    cbn [free_of] in H. apply andb_true_iff in H. destruct H as [H1 H2]. apply negb_true_iff in H1.
+    destruct (c =? 45) eqn:Ec.
+    + apply N.eqb_eq in Ec. subst c. destruct t as [|c' t'].
+      * vm_compute in H1. discriminate.
+      * unfold starts in H1. cbn [strip_prefix app] in H1. change (45 =? 45) with true in H1. cbv iota in H1.
+        cbn [free_of] in H2. apply andb_true_iff in H2. destruct H2 as [_ H2]. cbn [length] in Hl.
+        apply ct_hyphen; [|apply IH; [lia | exact H2]].
+        destruct (45 =? c') eqn:E; [discriminate | lia].
+    + apply ct_char; [lia | apply IH; [lia | exact H2]].
+Qed.
+
+Theorem free_of_comment t : free_of [45; 45] t = true <-> comment_text t.
+Proof. split; [apply (free_comment_text (length t)); lia | apply comment_text_free]. Qed.
+
+(* d occurs in s *)
+Fixpoint contains (d s : list N) : bool :=
+  match s with
+  | [] => starts d []
+  | _ :: r => starts d s || contains d r
+  end.
+
+(* CData, production 20: Char* - (Char* ']]>' Char* ) *)
+Theorem free_of_cdata t : free_of [93; 93; 62] t = negb (contains [93; 93; 62] t).
+Proof.
+  induction t as [|c t IH]; [reflexivity|]. cbn [free_of contains]. rewrite IH, negb_orb. f_equal. f_equal.
+  unfold starts. cbn [strip_prefix]. destruct (93 =? c); [|reflexivity].
+  destruct t as [|x [|y t]]; cbn [app strip_prefix].
+  - reflexivity.
+  - destruct (93 =? x); reflexivity.
+  - destruct (93 =? x); [|reflexivity]. destruct (62 =? y); reflexivity.
+Qed.
+
+(* the text of a processing instruction, production 16: Char* - (Char* '?>' Char* ) *)
+Theorem free_of_pi t : free_of [63; 62] t = negb (contains [63; 62] t).
+Proof.
+  induction t as [|c t IH]; [reflexivity|]. cbn [free_of contains]. rewrite IH, negb_orb. f_equal. f_equal.
+  unfold starts. cbn [strip_prefix]. destruct (63 =? c); [|reflexivity].
+  destruct t as [|x t]; cbn [app strip_prefix]; [reflexivity|]. destruct (62 =? x); reflexivity.
+Qed.
+
+(* ================================================================== where the subset is wider than XML 1.0 *)
+
+(* The relation above describes the accepted texts exactly, and at two places it allows more than the recommendation:
+   (1) before and after the root element the recommendation allows white space, comments and processing instructions
+       (Misc); xrenders allows any character data that is white space after the references are expanded, and CDATA
+       sections of white space;
+   (2) the values of the pseudo-attributes of the XML declaration are literal in the recommendation (VersionNum,
+       EncName, yes or no); xmldecl_spells spells them like attribute values, so references are expanded in them.
+   The texts below are accepted, and none of them is well-formed XML 1.0. *)
+Example wider_prolog_reference :      (* &#32;<a/> *)
+  xml_parse_cps [38; 35; 51; 50; 59; 60; 97; 47; 62] = XOk (XElem [97] [] []).
+Proof. vm_compute. reflexivity. Qed.
+Example wider_prolog_cdata :          (* <![CDATA[ ]]><a/> *)
+  xml_parse_cps [60; 33; 91; 67; 68; 65; 84; 65; 91; 32; 93; 93; 62; 60; 97; 47; 62] = XOk (XElem [97] [] []).
+Proof. vm_compute. reflexivity. Qed.
+Example wider_epilog_cdata :          (* <a/><![CDATA[ ]]> *)
+  xml_parse_cps [60; 97; 47; 62; 60; 33; 91; 67; 68; 65; 84; 65; 91; 32; 93; 93; 62] = XOk (XElem [97] [] []).
+Proof. vm_compute. reflexivity. Qed.
+Example wider_decl_reference :        (* <?xml version='&#49;.0'?><a/> *)
+  xml_parse_cps [60; 63; 120; 109; 108; 32; 118; 101; 114; 115; 105; 111; 110; 61; 39; 38; 35; 52; 57; 59; 46; 48; 39;
+                 63; 62; 60; 97; 47; 62] = XOk (XElem [97] [] []).
+Proof. vm_compute. reflexivity. Qed.
